@@ -33,6 +33,7 @@ ASSUME MM % 2 = 1
 
 (* arith.go; each returns <<hi, lo>>; Fit asserts the claimed absence of overflow *)
 Fit(v) == IF v < B * B THEN v ELSE Assert(FALSE, <<"register overflow", v>>)
+FitN(w0) == IF w0 < B ^ NL THEN w0 ELSE Assert(FALSE, <<"element overflow", w0>>)       \* a full NL-word value (Fit is the two-word register of the multiply-add helpers)
 Madd0(a, b, c)       == Fit(a * b + c) \div B
 Madd1(a, b, c)       == LET v == Fit(a * b + c) IN <<v \div B, v % B>>
 Madd2(a, b, c, d)    == LET v == Fit(a * b + c + d) IN <<v \div B, v % B>>
@@ -65,7 +66,7 @@ FromMontRound(z) ==
   IN  [st[2] EXCEPT ![NL] = st[1]]
 FromMontGeneric(z) == CondSub(FoldLeft(LAMBDA t, i : FromMontRound(t), z, FIdx(NL)))
 
-AddGeneric(x, y)  == LET s == Val(x) + Val(y) IN CondSub(Limbs(Fit(s) % (B ^ NL)))   \* the carry out of the top word is dropped by the code
+AddGeneric(x, y)  == LET s == Val(x) + Val(y) IN CondSub(Limbs(FitN(s) % (B ^ NL)))   \* the carry out of the top word is dropped by the code
 AddFits(x, y)     == Val(x) + Val(y) < B ^ NL                                           \* .. which is sound because it is never set
 SubGeneric(x, y)  == LET d == Val(x) - Val(y) IN IF d < 0 THEN Limbs(d + MM) ELSE Limbs(d)
 NegGeneric(x)     == IF Val(x) = 0 THEN Limbs(0) ELSE Limbs(MM - Val(x))
@@ -97,7 +98,7 @@ NextPair == /\ pc = "pair"
 StartInv == /\ pc = "pair" /\ y = 0 /\ x # 0
             /\ pc' = "inv" /\ u' = MM /\ s' = (RR * RR) % MM /\ r' = 0 /\ v' = x
             /\ UNCHANGED <<x, y>>
-Half(w, a) == IF w % 2 = 1 THEN Fit(w + MM) \div 2 ELSE w \div 2     \* (w + q) must fit the register: needs the clear top bit
+Half(w, a) == IF w % 2 = 1 THEN FitN(w + MM) \div 2 ELSE w \div 2    \* (w + q) must fit NL words: needs the clear top bit
 (* one iteration of the outer loop of Inverse *)
 RECURSIVE ShiftV(_, _), ShiftU(_, _)
 ShiftV(vv, ss) == IF vv % 2 = 0 THEN ShiftV(vv \div 2, Half(ss, 0)) ELSE <<vv, ss>>
